@@ -3,7 +3,8 @@ import ast
 
 from .core import norm
 
-_IMMUTABLE_CALLS = {"int", "float", "str", "bool", "tuple", "frozenset", "len"}
+_MUTABLE_MAKERS = {"list", "dict", "set", "bytearray", "zeros", "ones", "full", "empty", "array", "zeros_like", "ones_like", "full_like",
+                   "empty_like", "arange", "linspace", "copy", "deepcopy", "OrderedDict", "defaultdict", "asarray", "tile", "repeat"}
 
 
 def _mutable_alloc(v):
@@ -15,7 +16,7 @@ def _mutable_alloc(v):
     if isinstance(v, ast.Call):
         f = v.func
         name = f.id if isinstance(f, ast.Name) else (f.attr if isinstance(f, ast.Attribute) else None)
-        return name not in _IMMUTABLE_CALLS
+        return name in _MUTABLE_MAKERS
     return False
 
 
@@ -36,5 +37,5 @@ def shared_allocations(tree):
 def control():
     """positive / negative control of shared_allocations"""
     pos = ast.parse("a = dict.fromkeys(ks, np.full(s, np.nan))\nb = [np.zeros(3)] * n\nc = [[]] * 4\n")
-    neg = ast.parse("a = dict.fromkeys(ks, None)\nb = [0] * n\nc = {k: np.zeros(3) for k in ks}\nd = [None] * 3\ne = dict.fromkeys(ks, 0.0)\n")
+    neg = ast.parse("z = [slice(None)] * 3\na = dict.fromkeys(ks, None)\nb = [0] * n\nc = {k: np.zeros(3) for k in ks}\nd = [None] * 3\ne = dict.fromkeys(ks, 0.0)\n")
     return len(shared_allocations(pos)) == 3 and not shared_allocations(neg)
